@@ -1,8 +1,81 @@
 package main
 
-// Bridge lemmas between the bit-level (bv mode) contract of the bit readers
-// and the byte-arithmetic expansion used by int-mode callers.
+// Bridge lemmas (property C14).
+//
+// Int-mode callers read bits(s, p, n) with literal p, n as arithmetic over the
+// bytes holding the field (spec.go: bitsLiteral).  That reading is justified
+// against the bit-level contract of GetBitsAsUint64 / GetBitsAsInt64 (which is
+// proved on the real code in bv mode) by one finite bit-vector lemma per
+// (p mod 8, n): every r that satisfies the bitwise postcondition equals the
+// byte-arithmetic value.  The lemmas are over symbolic bytes, so they hold for
+// every buffer content.
+
+import (
+	"fmt"
+	"strings"
+)
+
+func bridgeQuery(a, n int, signed bool) string {
+	var b strings.Builder
+	b.WriteString("(set-logic QF_BV)\n")
+	hi := (a + n - 1) / 8
+	for j := 0; j <= hi; j++ {
+		fmt.Fprintf(&b, "(declare-const b%d (_ BitVec 8))\n", j)
+	}
+	b.WriteString("(declare-const r (_ BitVec 64))\n")
+	// bitwise postcondition of the reader
+	for k := 0; k < n; k++ {
+		s := n - 1 - k
+		j := (a + k) / 8
+		t := 7 - (a+k)%8
+		fmt.Fprintf(&b, "(assert (= ((_ extract %d %d) r) ((_ extract %d %d) b%d)))\n", s, s, t, t, j)
+	}
+	if n < 64 {
+		if signed {
+			// sign extension: every higher bit equals the field's first bit
+			t := 7 - a%8
+			for s := n; s < 64; s++ {
+				fmt.Fprintf(&b, "(assert (= ((_ extract %d %d) r) ((_ extract %d %d) b0)))\n", s, s, t, t)
+			}
+		} else {
+			fmt.Fprintf(&b, "(assert (= ((_ extract 63 %d) r) (_ bv0 %d)))\n", n, 64-n)
+		}
+	}
+	// byte-arithmetic value: (concat b0..bhi) >> trailing, low n bits
+	v := "b0"
+	for j := 1; j <= hi; j++ {
+		v = fmt.Sprintf("(concat %s b%d)", v, j)
+	}
+	trailing := 8*(hi+1) - (a + n)
+	field := fmt.Sprintf("((_ extract %d %d) %s)", trailing+n-1, trailing, v)
+	val := field
+	if n < 64 {
+		ext := "zero_extend"
+		if signed {
+			ext = "sign_extend"
+		}
+		val = fmt.Sprintf("((_ %s %d) %s)", ext, 64-n, field)
+	}
+	fmt.Fprintf(&b, "(assert (not (= r %s)))\n(check-sat)\n", val)
+	return b.String()
+}
 
 func (e *Engine) bridgeObligations(prop string) []*Oblig {
-	return nil
+	if prop != "C14" {
+		return nil
+	}
+	var out []*Oblig
+	for a := 0; a < 8; a++ {
+		for n := 1; n <= 64; n++ {
+			out = append(out, &Oblig{Name: fmt.Sprintf("bridge/bits[%d,%d]", a, n), Kind: "bridge", Fn: "spec:bits",
+				Clause: fmt.Sprintf("bitwise contract of GetBitsAsUint64 implies the byte-arithmetic value of bits(s, 8q+%d, %d)", a, n),
+				Props: []string{"C14"}, Raw: bridgeQuery(a, n, false)})
+			if n >= 2 {
+				out = append(out, &Oblig{Name: fmt.Sprintf("bridge/sbits[%d,%d]", a, n), Kind: "bridge", Fn: "spec:sbits",
+					Clause: fmt.Sprintf("bitwise contract of GetBitsAsInt64 implies the two's-complement byte-arithmetic value of sbits(s, 8q+%d, %d)", a, n),
+					Props: []string{"C14"}, Raw: bridgeQuery(a, n, true)})
+			}
+		}
+	}
+	return out
 }
